@@ -18,6 +18,10 @@ use std::sync::{Arc, Mutex};
 
 #[derive(Clone, Debug, PartialEq, Serialize, Deserialize)]
 pub struct Plan {
+    /// the clients call the cold tier (HnswBackend, public API of the library) directly: no tier write gate serialises
+    /// the writers, so tombstone compaction inside one insert really runs next to another client's delete
+    #[serde(default)]
+    pub cold_direct: bool,
     pub cfg: TCfg,
     pub universe: u64,
     pub pre: Vec<ApiOp>,
@@ -47,11 +51,21 @@ pub fn write_vec(dim: usize, n: u64, scale: f32) -> Vec<f32> {
     v
 }
 
+/// Vector of write number `n` that differs from every other such vector in the LAST lane only (the other lanes are
+/// constant): versions of one document that a digest, a kernel tail or a comparison skipping the final lane confuses.
+pub fn write_vec_last_lane(dim: usize, n: u64) -> Vec<f32> {
+    let d = dim.max(2);
+    let mut v = vec![0.0f32; d];
+    v[0] = 0.6;
+    v[d - 1] += 0.8 + (n as f32) * 0.005;
+    v
+}
+
 pub fn gen_plan(seed: u64, run: u64, _tier: &str) -> Plan {
     let prog = run / 16;
     let mut rng = Rng::for_run(seed, "C05p", prog);
     let mut cfg = TCfg::gen(&mut rng);
-    cfg.dim = *rng.pick(&[2usize, 3, 4]);
+    cfg.dim = *rng.pick(&[2usize, 3, 4, 5, 9]);
     cfg.cache_cap = *rng.pick(&[1usize, 2, 2, 8]);
     cfg.hot_hard = *rng.pick(&[1usize, 2, 2, 200]);
     cfg.hot_soft = *rng.pick(&[1usize, 2, 100]);
@@ -60,13 +74,16 @@ pub fn gen_plan(seed: u64, run: u64, _tier: &str) -> Plan {
     cfg.capacity = *rng.pick(&[1000usize, 1000, 2, 3, 4]);
     cfg.snap_interval = *rng.pick(&[0usize, 3, 1000]);
     let universe = rng.range(1, 2);
+    let last_lane_only = rng.chance(1, 4);
     let mut n = 0u64;
     let mut mk_write = |rng: &mut Rng, id: u64| {
         n += 1;
         let scale = *rng.pick(&[1.0f32, 1.0, 3.0, 0.2]);
         let mut meta = Meta::new();
         meta.insert("w".to_string(), n.to_string());
-        ApiOp::Insert { id, vec: bits(&write_vec(cfg.dim, n, scale)), meta }
+        // in a quarter of the programs every write differs from the others in the last lane only
+        let v = if last_lane_only { write_vec_last_lane(cfg.dim, n) } else { write_vec(cfg.dim, n, scale) };
+        ApiOp::Insert { id, vec: bits(&v), meta }
     };
     let mut gen_client_op = |rng: &mut Rng, forced_write: Option<u64>| -> ApiOp {
         if let Some(id) = forced_write {
@@ -102,7 +119,31 @@ pub fn gen_plan(seed: u64, run: u64, _tier: &str) -> Plan {
     let env_seed = rng.next();
     let mut srng = Rng::for_run(seed, "C05s", run);
     let sched = SchedSpec::gen(&mut srng, 150);
-    Plan { cfg, universe, pre, threads, final_flush, sched, env_seed }
+    // half of the tiny-index programs go to the cold tier directly, without persistence (where the snapshot lock that
+    // otherwise keeps compaction and writers apart does not exist)
+    let cold_direct = cfg.capacity < 1000 && rng.chance(1, 2);
+    let mut cfg = cfg;
+    let mut pre = pre;
+    let mut threads = threads;
+    if cold_direct {
+        cfg.persist = false;
+        let fix = |op: &mut ApiOp| {
+            if let ApiOp::GetDocMeta { id } = op {
+                *op = ApiOp::BulkQuery { ids: vec![*id], emb: true };
+            }
+        };
+        pre.iter_mut().for_each(fix);
+        threads.iter_mut().for_each(|t| t.iter_mut().for_each(fix));
+    }
+    Plan { cold_direct, cfg, universe, pre, threads, final_flush, sched, env_seed }
+}
+
+fn run_op(b: &Built, op: &ApiOp, cold_direct: bool) -> ApiRes {
+    if cold_direct {
+        exec_cold(b, op)
+    } else {
+        exec(b, op)
+    }
 }
 
 #[derive(Clone, Debug, Serialize, Deserialize, PartialEq)]
@@ -377,7 +418,7 @@ pub fn execute(plan: &Plan) -> Exec {
         // warm-up, sequential: establishes the initial register state
         let mut init: BTreeMap<u64, Option<u64>> = BTreeMap::new();
         for op in &p.pre {
-            let res = exec(&built, op);
+            let res = run_op(&built, op, p.cold_direct);
             match (op, &res) {
                 (ApiOp::Insert { id, meta, .. }, ApiRes::Unit(Ok(()))) => {
                     init.insert(*id, meta.get("w").and_then(|s| s.parse().ok()));
@@ -397,10 +438,11 @@ pub fn execute(plan: &Plan) -> Exec {
             let hist = Arc::clone(&hist);
             let probs = Arc::clone(&probs);
             let w = Arc::clone(&w);
+            let cold_direct = p.cold_direct;
             bodies.push(Box::new(move || {
                 for op in ops.iter() {
                     let inv = sim::stamp();
-                    let res = exec(&b, op);
+                    let res = run_op(&b, op, cold_direct);
                     let ret = sim::stamp();
                     let mut pr = Vec::new();
                     let evs = events_of(op, &res, t, inv, ret, &w, &mut pr);
@@ -435,7 +477,10 @@ pub fn execute(plan: &Plan) -> Exec {
         }
         for id in 0..p.universe {
             for op in [ApiOp::GetDocMeta { id }, ApiOp::Query { id }, ApiOp::BulkQuery { ids: vec![id], emb: true }, ApiOp::Exists { id }, ApiOp::GetEmb { id }] {
-                let res = exec(&built, &op);
+                if p.cold_direct && matches!(op, ApiOp::GetDocMeta { .. }) {
+                    continue;
+                }
+                let res = run_op(&built, &op, p.cold_direct);
                 let mut pr = Vec::new();
                 let evs = events_of(&op, &res, 99, stamp, stamp + 1, &w, &mut pr);
                 stamp += 2;
